@@ -4,7 +4,15 @@
 //!          kind 0/1: bigWig single/two pass, opts/sizes/input/queries as in Model/EntryBBI.v
 //!          kind 10/11: bigBed single/two pass, input/queries as in Model/EntryBed.v, autosql () | ((bytes))
 //!          (trace model: Model/SinkTraceBed.v)
-//!          cfg = (threads inmemory nofault)
+//!          cfg = (threads inmemory nofault [short])
+//!          short = N > 0: a SHORT-WRITE case.  The destination accepts at most N bytes per `write` call (legal for
+//!          any `Write`; never a failure).  Two runs: the reference run with the sink that takes everything, and the run
+//!          with the short-write sink.  Output as below with status = the short-write run's status, trace = () (not
+//!          recorded: one operation per N bytes), runs = the short-write run's coalesced writes, faults = (), and
+//!          prefixes = ((0 0 0) (nops 0 v)): v = 1 when the writer returned Ok and the destination holds exactly the
+//!          reference run's bytes and answers EVERY query (total summary and item count included) as the reference
+//!          file; 2 when it returned Ok and the bytes or an answer differ (a partial file reported as written);
+//!          when it did not return Ok: 0 = the reader rejects what was written / 1 = it opens.
 //! output = (status trace runs prefixes torn faults)
 //!   status   (0) accepted | (1 code) refused | (2) panic
 //!   trace    every operation that reached the sink, in order:
@@ -41,6 +49,7 @@ struct SinkState {
     count: [usize; 3],
     fail: Option<(usize, usize)>, // (kind, k): the k-th (0-based) operation of that kind fails
     fired: bool,
+    short: usize, // > 0: at most this many bytes are accepted per `write` call
 }
 
 /// An in-memory sink that logs every operation and can fail one of them.
@@ -48,7 +57,12 @@ struct SinkState {
 struct RecSink(Arc<Mutex<SinkState>>);
 impl RecSink {
     fn new(fail: Option<(usize, usize)>) -> Self {
-        RecSink(Arc::new(Mutex::new(SinkState { data: vec![], pos: 0, log: vec![], count: [0; 3], fail, fired: false })))
+        RecSink(Arc::new(Mutex::new(SinkState { data: vec![], pos: 0, log: vec![], count: [0; 3], fail, fired: false, short: 0 })))
+    }
+    fn short(n: usize) -> Self {
+        let s = Self::new(None);
+        s.0.lock().unwrap().short = n;
+        s
     }
     fn hit(st: &mut SinkState, kind: usize) -> io::Result<()> {
         let k = st.count[kind];
@@ -64,6 +78,7 @@ impl Write for RecSink {
     fn write(&mut self, buf: &[u8]) -> io::Result<usize> {
         let mut st = self.0.lock().unwrap();
         Self::hit(&mut st, 1)?;
+        let buf = if st.short > 0 && buf.len() > st.short { &buf[..st.short] } else { buf };
         let pos = st.pos as usize;
         if st.data.len() < pos + buf.len() {
             st.data.resize(pos + buf.len(), 0);
@@ -234,6 +249,49 @@ fn run(c: &S) -> S {
     };
     let trace = S::L(log.iter().map(op_s).collect());
     let runs = S::L(coalesce(&log).iter().map(|(p, b)| sl![a(*p), S::from_bytes(b)]).collect());
+
+    // short-write case: the same call once more into a destination that takes at most `short` bytes per write
+    let short = c.at(5).l().get(3).map(|x| x.usize()).unwrap_or(0);
+    if short > 0 {
+        let ssink = RecSink::short(short);
+        let sres = std::panic::catch_unwind(std::panic::AssertUnwindSafe(|| run_any(kind, &o, &sizes, &input, threads, inmemory, ssink.clone())));
+        let sstatus = match &sres {
+            Ok(Ok(())) => sl![a(0)],
+            Ok(Err(code)) => sl![a(1), a(*code)],
+            Err(_) => sl![a(2)],
+        };
+        let (slog, sbytes) = {
+            let st = ssink.0.lock().unwrap();
+            (st.log.clone(), st.data.clone())
+        };
+        let all = |bytes: &[u8]| -> Option<Vec<S>> {
+            std::panic::catch_unwind(|| {
+                if bed {
+                    let mut r = BigBedRead::open(Cursor::new(bytes.to_vec())).ok()?;
+                    Some(queries.iter().filter(|q| q.at(0).u32() != 7).map(|q| bb_answer(&mut r, q)).collect::<Vec<S>>())
+                } else {
+                    let mut r = BigWigRead::open(Cursor::new(bytes.to_vec())).ok()?;
+                    Some(queries.iter().map(|q| bw_answer(&mut r, q)).collect::<Vec<S>>())
+                }
+            })
+            .unwrap_or_else(|_| Some(vec![sl![a(2)]]))
+        };
+        let sans = all(&sbytes);
+        let v = if matches!(sres, Ok(Ok(()))) {
+            if matches!(res, Ok(Ok(()))) && sbytes == final_bytes && sans.is_some() && sans == all(&final_bytes) {
+                1
+            } else {
+                2
+            }
+        } else if sans.is_none() {
+            0
+        } else {
+            1
+        };
+        let sruns = S::L(coalesce(&slog).iter().map(|(p, b)| sl![a(*p), S::from_bytes(b)]).collect());
+        let prefixes = sl![sl![a(0), a(0), a(0)], sl![a(slog.len() as u64), a(0), a(v)]];
+        return sl![sstatus, sl![], sruns, prefixes, sl![a(0), a(0)], sl![]];
+    }
 
     // 2. every crash point
     let final_answers = serve(bed, &final_bytes, &queries);
